@@ -369,3 +369,31 @@ Example url_shape_nonvacuous :
   option_map render_url (url_of v) = Some (s "proc/p.html#variable-x") /\
   option_map render_url (url_of q) = Some (s "proc/p.html#proc-q").
 Proof. vm_compute. auto. Qed.
+
+(* an entity without a page of its own has a URL only through its parent: below a parent without URL
+   (a derived type declared inside a procedure, an unnamed interface ...) nothing has a URL, so no
+   link can point at an anchor that no page writes *)
+Theorem url_none_inherited : forall k obj ident named ifp p,
+  get_dir (Ent k obj ident named ifp (Some p)) = None -> url_of p = None ->
+  url_of (Ent k obj ident named ifp (Some p)) = None.
+Proof.
+  intros k obj ident named ifp p Hd Hp. cbn [url_of]. rewrite Hd, Hp.
+  destruct (anchored_kind k); reflexivity.
+Qed.
+
+(* and only the anchored kinds (variables, bound procedures, common blocks, enumerations, final
+   procedures, procedures) ever get "<parent page>#<anchor>": a derived type or interface that has no page
+   has no URL *)
+Theorem url_unanchored_kind : forall e,
+  get_dir e = None -> anchored_kind (e_kind e) = false -> url_of e = None.
+Proof.
+  intros [k obj ident named ifp par] Hd Hk. simpl in Hk. cbn [url_of]. rewrite Hd, Hk. reflexivity.
+Qed.
+
+Example url_local_type_nonvacuous :
+  let m := Ent KModule (s "module") (s "m") true false None in
+  let p := Ent KProcedure (s "proc") (s "report") true false (Some m) in
+  let t := Ent KType (s "type") (s "acc_t") true false (Some p) in
+  let b := Ent KBoundProc (s "boundprocedure") (s "add") true false (Some t) in
+  get_dir t = None /\ anchored_kind (e_kind t) = false /\ url_of t = None /\ url_of b = None.
+Proof. vm_compute. auto. Qed.
